@@ -28,6 +28,10 @@ pub struct Run {
     /// was written), in output order; empty when the generator does not know
     #[serde(default)]
     pub intended: Vec<Intent>,
+    /// the numeric cells written in a notation okane's number grammar does not know or with
+    /// trailing junk (the cell texts); empty for an ordinary statement
+    #[serde(default)]
+    pub junk: Vec<String>,
 }
 
 /// (negative, mantissa, scale)
@@ -41,6 +45,12 @@ pub struct Intent {
     pub balance: Option<Num>,
     /// fee booked to Expenses:Commissions
     pub charge: Option<Num>,
+    /// stated exchange rate of a converted record (attached to some posting as its `@` cost)
+    #[serde(default)]
+    pub rate: Option<Num>,
+    /// stated secondary amount of a converted record (its magnitude is some posting's amount)
+    #[serde(default)]
+    pub secondary: Option<Num>,
 }
 
 // ---------- adversarial text ----------
@@ -157,6 +167,19 @@ fn money_cell(r: &mut Rng, st: &mut Stats, n: Num) -> String {
     text
 }
 
+/// a money cell, or - when `junk` - the same figure in a notation okane does not know / with
+/// trailing junk; the flag tells whether the cell still says exactly that figure
+fn cell(r: &mut Rng, st: &mut Stats, n: Num, junk: bool, written: &mut Vec<String>, column: &str) -> (String, bool) {
+    if junk {
+        let (t, tag, definite) = crate::impgen::foreign_number(r, n.0, n.1, n.2);
+        st.count(&format!("csv_junk_cell:{}:{}", column, tag));
+        written.push(t.clone());
+        (t, definite)
+    } else {
+        (money_cell(r, st, n), true)
+    }
+}
+
 fn precisions_yaml(r: &mut Rng, comms: &[&str]) -> String {
     let mut s = String::new();
     let mut seen: Vec<&str> = Vec::new();
@@ -247,7 +270,7 @@ fn gen_camt(r: &mut Rng, st: &mut Stats) -> Run {
     writeln!(y, "  - matcher:\n      payee: \"Okane\"\n    account: \"Assets:Wire:Money Bank\"\n    pending: true").unwrap();
     // the opening-balance transaction is a record of the statement as well
     let has_opening = x.contains("OPBD");
-    Run { importer: "camt".into(), path: "in.xml".into(), input: x, yaml: y, records: records + if has_opening { 1 } else { 0 }, intended: vec![] }
+    Run { importer: "camt".into(), path: "in.xml".into(), input: x, yaml: y, records: records + if has_opening { 1 } else { 0 }, intended: vec![], junk: vec![] }
 }
 
 // ---------- CSV ----------
@@ -257,6 +280,23 @@ fn csv_field(s: &str) -> String {
         format!("\"{}\"", s.replace('"', "\"\""))
     } else {
         s.to_string()
+    }
+}
+
+/// the text fields of a statement with a junk number cell are benign, so that what the importer
+/// makes of the number is not hidden behind a known text class
+fn text_of(r: &mut Rng, benign: bool) -> (String, &'static str) {
+    if benign {
+        (r.pick(&BENIGN).to_string(), "benign")
+    } else {
+        adv_text(r)
+    }
+}
+fn comm_of(r: &mut Rng, base: &str, benign: bool) -> (String, &'static str) {
+    if benign {
+        (base.to_string(), "benign")
+    } else {
+        commodity_text(r, base)
     }
 }
 
@@ -273,6 +313,11 @@ fn gen_csv(r: &mut Rng, st: &mut Stats) -> Run {
         writeln!(y, "  row_order: new_to_old").unwrap();
     }
     let mut intended: Vec<Intent> = Vec::new();
+    // one statement in five has one numeric cell in a notation okane's number grammar does not
+    // know, or with trailing junk: it must be refused or that very figure booked
+    let junk_row: Option<usize> = if r.chance(1, 5) { Some(r.below(n as u64) as usize) } else { None };
+    let junk_col = r.below(3);
+    let mut junk: Vec<String> = Vec::new();
     let p = precisions_yaml(r, &["CHF", "EUR", "USD"]);
     y.push_str(&p);
     match layout {
@@ -280,32 +325,35 @@ fn gen_csv(r: &mut Rng, st: &mut Stats) -> Run {
             // amount / balance / note / category / commodity column / charge
             writeln!(y, "  fields:\n    date: Date\n    payee: Payee\n    amount: Amount\n    balance: Balance\n    note: Note\n    category: Cat\n    commodity: Ccy\n    charge: Fee").unwrap();
             t.push_str("Date,Payee,Amount,Balance,Note,Cat,Ccy,Fee\n");
-            for _ in 0..n {
-                let (payee, ptag) = adv_text(r);
-                let (note, ntag) = adv_text(r);
-                let (ccy, ctag) = commodity_text(r, "CHF");
+            for k in 0..n {
+                let (payee, ptag) = text_of(r, junk_row.is_some());
+                let (note, ntag) = text_of(r, junk_row.is_some());
+                let (ccy, ctag) = comm_of(r, "CHF", junk_row.is_some());
                 st.count(&format!("text:payee:{}", ptag));
                 st.count(&format!("text:note:{}", ntag));
                 st.count(&format!("text:commodity:{}", ctag));
                 // an `amount` column is the statement's own figure: negated for a liability account
+                let jk = if junk_row == Some(k) { junk_col } else { 99 };
                 let (m, sc) = gen_num(r);
                 let a: Num = (r.chance(2, 5), m, sc);
-                let amount = money_cell(r, st, a);
-                let (bal, ibal) = if r.chance(1, 2) {
+                let (amount, a_def) = cell(r, st, a, jk == 0, &mut junk, "amount");
+                let (bal, ibal) = if r.chance(1, 2) || jk == 1 {
                     let (m, sc) = gen_num(r);
                     let b: Num = (r.chance(1, 4), m, sc);
-                    (money_cell(r, st, b), Some(b))
+                    let (t, def) = cell(r, st, b, jk == 1, &mut junk, "balance");
+                    (t, if def { Some(b) } else { None })
                 } else {
                     (String::new(), None)
                 };
-                let (fee, ifee) = if r.chance(1, 4) {
+                let (fee, ifee) = if r.chance(1, 4) || jk == 2 {
                     let (m, sc) = gen_num(r);
                     let f: Num = (r.chance(1, 5), m, sc);
-                    (money_cell(r, st, f), if m == 0 { None } else { Some(f) })
+                    let (t, def) = cell(r, st, f, jk == 2, &mut junk, "charge");
+                    (t, if m == 0 || !def { None } else { Some(f) })
                 } else {
                     (String::new(), None)
                 };
-                intended.push(Intent { amount: Some((a.0 != liability, a.1, a.2)), balance: ibal, charge: ifee });
+                intended.push(Intent { amount: if a_def { Some((a.0 != liability, a.1, a.2)) } else { None }, balance: ibal, charge: ifee, ..Default::default() });
                 writeln!(t, "2021-10-{:02},{},{},{},{},{},{},{}", 1 + r.below(27), csv_field(&payee), csv_field(&amount), csv_field(&bal), csv_field(&note), csv_field(*r.pick(&["food", "misc"])), csv_field(&ccy), csv_field(&fee)).unwrap();
             }
             writeln!(y, "rewrite:\n  - matcher:\n      payee: \"^Debit (?P<code>[^ ]*) (?P<payee>.*)$\"\n  - matcher:\n      category: food\n    account: Expenses:Food").unwrap();
@@ -314,24 +362,42 @@ fn gen_csv(r: &mut Rng, st: &mut Stats) -> Run {
             // credit / debit, secondary amount with rate (conversion)
             writeln!(y, "  fields:\n    date: Date\n    payee: Payee\n    credit: In\n    debit: Out\n    secondary_amount: SAmt\n    secondary_commodity: SCcy\n    rate: Rate").unwrap();
             t.push_str("Date,Payee,In,Out,SAmt,SCcy,Rate\n");
-            for _ in 0..n {
-                let (payee, ptag) = adv_text(r);
+            for k in 0..n {
+                let (payee, ptag) = text_of(r, junk_row.is_some());
                 st.count(&format!("text:payee:{}", ptag));
                 let credit = r.chance(1, 2);
                 // usually unsigned; a negative figure in the credit (debit) column is a reversal
+                let jk = if junk_row == Some(k) { junk_col } else { 99 };
                 let (m, sc) = gen_num(r);
                 let an: Num = (r.chance(1, 5), m, sc);
-                let a = money_cell(r, st, an);
-                intended.push(Intent { amount: Some((an.0 == credit, an.1, an.2)), balance: None, charge: None });
-                let conv = r.chance(1, 2);
-                let (sc, sctag) = if conv { commodity_text(r, "EUR") } else { (String::new(), "none") };
+                let (a, a_def) = cell(r, st, an, jk == 0, &mut junk, if credit { "credit" } else { "debit" });
+                let conv = r.chance(1, 2) || jk == 1 || jk == 2;
+                let (sc, sctag) = if conv { comm_of(r, "EUR", junk_row.is_some()) } else { (String::new(), "none") };
                 if conv {
                     st.count(&format!("text:commodity:{}", sctag));
                 }
                 let sc = if conv && (sc.is_empty() || sc == "CHF") { "EUR".to_string() } else { sc };
-                writeln!(t, "2021-10-{:02},{},{},{},{},{},{}", 1 + r.below(27), csv_field(&format!("Debit {} {}", *r.pick(&["1234", "A)B", "", "77", "Z-9", "8/8", "x;y", "12"]), payee)),
+                let mut it = Intent { amount: if a_def { Some((an.0 == credit, an.1, an.2)) } else { None }, ..Default::default() };
+                let (samt, rate) = if conv {
+                    let (m, s2) = gen_num(r);
+                    let sn: Num = (r.chance(1, 4), m, s2);
+                    let (st_, sdef) = cell(r, st, sn, jk == 1, &mut junk, "secondary_amount");
+                    let rn: Num = (false, (r.range(1, 200) * 10000 + r.below(10000) as i64) as u64, 4);
+                    let (rt, rdef) = if jk == 2 { cell(r, st, rn, true, &mut junk, "rate") } else { (crate::ledger::num_text(rn.1 as i64, 4, false), true) };
+                    if sdef {
+                        it.secondary = Some(sn);
+                    }
+                    if rdef {
+                        it.rate = Some(rn);
+                    }
+                    (st_, rt)
+                } else {
+                    (String::new(), String::new())
+                };
+                intended.push(it);
+                writeln!(t, "2021-10-{:02},{},{},{},{},{},{}", 1 + r.below(27), csv_field(&format!("Debit {} {}", if junk_row.is_some() { *r.pick(&["1234", "77", "12"]) } else { *r.pick(&["1234", "A)B", "", "77", "Z-9", "8/8", "x;y", "12"]) }, payee)),
                     csv_field(if credit { &a } else { "" }), csv_field(if credit { "" } else { &a }),
-                    csv_field(&if conv { let (m, s2) = gen_num(r); let neg = r.chance(1, 4); money_cell(r, st, (neg, m, s2)) } else { String::new() }), csv_field(&sc), csv_field(&if conv { format!("{}.{:04}", r.range(1, 200), r.below(10000)) } else { String::new() })).unwrap();
+                    csv_field(&samt), csv_field(&sc), csv_field(&rate)).unwrap();
             }
             writeln!(y, "rewrite:\n  - matcher:\n      payee: \"(?s)^Debit (?P<code>[^ ]*) (?P<payee>.*)$\"\n  - matcher:\n      payee: Okane\n    account: Assets:Wire\n    pending: true").unwrap();
         }
@@ -339,22 +405,23 @@ fn gen_csv(r: &mut Rng, st: &mut Stats) -> Run {
             // template payee from category and note
             writeln!(y, "  fields:\n    date: Date\n    payee:\n      template: \"{{category}} - {{note}}\"\n    category: Action\n    note: Description\n    amount: Amount").unwrap();
             t.push_str("Date,Action,Description,Amount\n");
-            for _ in 0..n {
-                let (cat, ctag) = adv_text(r);
-                let (note, ntag) = adv_text(r);
+            for k in 0..n {
+                let (cat, ctag) = text_of(r, junk_row.is_some());
+                let (note, ntag) = text_of(r, junk_row.is_some());
                 st.count(&format!("text:category:{}", ctag));
                 st.count(&format!("text:note:{}", ntag));
                 let (m, sc) = gen_num(r);
                 let a: Num = (r.chance(2, 5), m, sc);
-                intended.push(Intent { amount: Some((a.0 != liability, a.1, a.2)), balance: None, charge: None });
-                writeln!(t, "2021-10-{:02},{},{},{}", 1 + r.below(27), csv_field(&cat), csv_field(&note), csv_field(&money_cell(r, st, a))).unwrap();
+                let (at, a_def) = cell(r, st, a, junk_row == Some(k), &mut junk, "amount");
+                intended.push(Intent { amount: if a_def { Some((a.0 != liability, a.1, a.2)) } else { None }, ..Default::default() });
+                writeln!(t, "2021-10-{:02},{},{},{}", 1 + r.below(27), csv_field(&cat), csv_field(&note), csv_field(&at)).unwrap();
             }
         }
     }
     if new_to_old {
         intended.reverse();
     }
-    Run { importer: "csv".into(), path: "in.csv".into(), input: t, yaml: y, records: n, intended }
+    Run { importer: "csv".into(), path: "in.csv".into(), input: t, yaml: y, records: n, intended, junk }
 }
 
 // ---------- Viseca ----------
@@ -398,7 +465,7 @@ fn gen_viseca(r: &mut Rng, st: &mut Stats) -> Run {
         writeln!(y, "format:\n{}", p.trim_end()).unwrap();
     }
     writeln!(y, "rewrite:\n  - matcher:\n      category: Telecommunication\n    account: Expenses:Telecom\n  - matcher:\n      payee: Okane\n    account: Assets:Wire\n    pending: true").unwrap();
-    Run { importer: "viseca".into(), path: "in.txt".into(), input: t, yaml: y, records: n, intended: vec![] }
+    Run { importer: "viseca".into(), path: "in.txt".into(), input: t, yaml: y, records: n, intended: vec![], junk: vec![] }
 }
 
 // ---------- observation ----------
@@ -542,6 +609,17 @@ pub fn emit(sh: &mut Shards, st: &mut Stats, run: &Run, source: &str, nontrivial
         ImportRun::Err(d, _) => {
             // not a transaction-producing run: nothing was printed, nothing to read back
             st.count(&format!("impl:import_error:{}", d.chars().take(40).collect::<String>()));
+            if !run.junk.is_empty() {
+                // a statement with a cell that is not a number of okane's grammar was refused: a case
+                // of its own (nothing printed, so nothing misread; the model of str_to_comma_decimal
+                // must refuse one of the cells, and the error must be the number error)
+                let code = if d.contains("failed to parse comma decimal") { 10 } else { 99 };
+                st.eval(&(&run.input, &run.yaml), nontrivial);
+                st.count(&format!("impl:refused_statement_with_junk_cell:kind{}", code));
+                let rep = json!({"property": "C15", "run": serde_json::to_value(run).unwrap(), "impl": {"import_error": d},
+                    "reproduce": "write run.input to in.csv and run.yaml to cfg.yml; okane import --config cfg.yml in.csv"});
+                sh.push(format!("CRefused {} {}", coq::list(run.junk.iter().map(|c| coq::bytes_list(c.as_bytes()))), code), vec![rep]);
+            }
             return;
         }
         ImportRun::BadConfig(m) => {
@@ -629,7 +707,7 @@ pub fn emit(sh: &mut Shards, st: &mut Stats, run: &Run, source: &str, nontrivial
         st.sample(rep.clone(), 5);
     }
     let num_term = |n: &Option<Num>| coq::opt(n.as_ref().map(|(neg, m, s)| format!("(mkd {} {} {})", coq::bool_(*neg), m, s)));
-    let intents = coq::list(run.intended.iter().map(|i| format!("(INT {} {} {})", num_term(&i.amount), num_term(&i.balance), num_term(&i.charge))));
+    let intents = coq::list(run.intended.iter().map(|i| format!("(INT {} {} {} {} {})", num_term(&i.amount), num_term(&i.balance), num_term(&i.charge), num_term(&i.rate), num_term(&i.secondary))));
     if !run.intended.is_empty() {
         st.count("runs_with_intended_values");
     }
@@ -692,7 +770,7 @@ fn testdata_runs() -> Vec<Run> {
     };
     for (f, imp) in [("iso_camt.xml", "camt"), ("index_amount.csv", "csv"), ("label_credit_debit.csv", "csv"), ("csv_template.csv", "csv"), ("csv_multi_currency.csv", "csv"), ("viseca.txt", "viseca")] {
         if let Ok(input) = std::fs::read_to_string(dir.join(f)) {
-            let mut run = Run { importer: imp.into(), path: f.into(), input, yaml: yaml.clone(), records: 0, intended: vec![] };
+            let mut run = Run { importer: imp.into(), path: f.into(), input, yaml: yaml.clone(), records: 0, intended: vec![], junk: vec![] };
             // the number of records is read off the output itself for the repository's own files
             if let ImportRun::Ok(i) = imptree::run_import(run.input.as_bytes(), &run.yaml, &run.path, format_of(imp)) {
                 run.records = i.txns.len();
@@ -707,9 +785,9 @@ pub fn run(o: &Opts) {
     let mut st = Stats::new();
     // smaller files in the thorough tier: coqc memory grows with the size of the case literal
     let mut sh = Shards::new(&o.out, if o.thorough { o.shards * 6 } else { o.shards }, HEADER);
-    st.rule = "statement files for the three importers (Camt053 XML with payee captured from AddtlTxInf/AddtlNtryInf, code from AcctSvcrRef, currency attribute, charges, foreign amounts with rates; CSV in three layouts: amount/balance/note/category/commodity/charge columns, credit/debit with secondary amount and rate, template payee; Viseca text) whose text fields are drawn from an adversarial pool (`;`, LF/CR/CRLF, injected transaction text, leading `(` `*` `!`, double space, tab, `:tag:`, `key: value`, non-ASCII, outer white space incl. U+3000/U+00A0, 2 kB fields, empty) with varied amounts (grouping commas, scales 0-5; CSV amount / credit / debit / balance / charge / secondary-amount cells bare, commodity-suffixed or prefixed with `$` / a currency code and the minus sign before or after the prefix: -$1.46, $-1,950.25, -USD 5, USD -5; the generator's own figure for each cell is checked against the transaction read back) and configured precisions 0-30; import + to_double_entry, printed as ImportCmd does, re-read with parse_ledger; non-trivial = some text field holds a character outside [A-Za-z0-9 ]; distinct by input + configuration".into();
+    st.rule = "statement files for the three importers (Camt053 XML with payee captured from AddtlTxInf/AddtlNtryInf, code from AcctSvcrRef, currency attribute, charges, foreign amounts with rates; CSV in three layouts: amount/balance/note/category/commodity/charge columns, credit/debit with secondary amount and rate, template payee; Viseca text) whose text fields are drawn from an adversarial pool (`;`, LF/CR/CRLF, injected transaction text, leading `(` `*` `!`, double space, tab, `:tag:`, `key: value`, non-ASCII, outer white space incl. U+3000/U+00A0, 2 kB fields, empty) with varied amounts (grouping commas, scales 0-5; CSV amount / credit / debit / balance / charge / secondary-amount cells bare, commodity-suffixed or prefixed with `$` / a currency code and the minus sign before or after the prefix: -$1.46, $-1,950.25, -USD 5, USD -5; the generator's own figure for each cell - also the rate and the secondary amount of a converted record - is checked against the transaction read back; one CSV statement in five has one amount / credit / debit / balance / charge / secondary-amount / rate cell in a notation okane's number grammar does not know or with trailing junk (6'540.35, 1 234.56, 12.50-, (12.50), +12.50, 1.234,56, 12,50, 1,23,456.78, 12..5, 12.50*, 5 USD EUR, --5, 1.5e0, 12.5x): refused, or read back as that very figure) and configured precisions 0-30; import + to_double_entry, printed as ImportCmd does, re-read with parse_ledger; non-trivial = some text field holds a character outside [A-Za-z0-9 ]; distinct by input + configuration".into();
     st.assumptions.push("account names and the operator (charge payee) come from the configuration and are well-formed account names / plain text; only statement-file text is adversarial".into());
-    st.assumptions.push("amount fields of the statement files are valid numbers (malformed amounts are property C06/C16 territory)".into());
+    st.assumptions.push("amount fields of the Camt053 and Viseca statement files are valid numbers; CSV cells may be in a foreign notation or carry trailing junk, never a notation that okane's grammar reads as a different number (1,234 for 1.234)".into());
     let (corpus, replay) = corpus_runs(&o.corpus, &o.extra);
     for c in &corpus {
         emit(&mut sh, &mut st, c, "corpus", true);
